@@ -117,6 +117,11 @@ def evaluate(case):
 
 
 def _evaluate(case, td):
+    if case.get("kind") == "write-fault":
+        r = _fault_case(case["cfg"])
+        if not r["ok"]:
+            raise Violation("partial-trace-accepted/after-write-fault/" + r["command"], "write fault left a partial but accepted trace", dict(command=r["command"], kind="write-fault"))
+        return Outcome(nontrivial=True, classes=("kind:write-fault",))
     trace = os.path.join(td, "trace.pkl.gz")
     if case["kind"] == "real":
         from phyclone.process_trace import create_main_run_output
@@ -166,6 +171,91 @@ def _evaluate(case, td):
     return Outcome(nontrivial=len(blob) > 1, classes=tuple(classes), key=None, info=dict(kind=case["kind"], size=len(blob), prefixes=len(blob), rejected_runs=rejected, accepted_identical_runs=accepted), weight=len(blob) * 5)
 
 
+def _run_with_write_fault(cfg, td, fault_after=None):
+    """phyclone.run.run in-process (2 chains) with every gzip write counted; when `fault_after` is given the write that
+    crosses that many payload bytes raises ENOSPC (disk full), as a crash point inside the trace write at the end of a run.
+    Returns (bytes written, exception or None)."""
+    import errno
+    import gzip
+
+    import phyclone.run as prun
+
+    from vp import pyclone_oracle as po
+
+    inp = os.path.join(td, "in.tsv")
+    po.write_table(cfg["rows"], inp)
+    out = os.path.join(td, "trace.pkl.gz")
+    counter = [0]
+    real_write = gzip.GzipFile.write
+
+    def write(self, data):
+        counter[0] += len(data)
+        if fault_after is not None and counter[0] > fault_after:
+            raise OSError(errno.ENOSPC, "No space left on device (injected)")
+        return real_write(self, data)
+
+    gzip.GzipFile.write = write
+    exc = None
+    try:
+        with contextlib.redirect_stdout(io.StringIO()):
+            prun.run(inp, out, burnin=1, num_iters=cfg["iters"], num_particles=3, grid_size=11, seed=cfg["seed"], num_chains=2, proposal=cfg["proposal"], print_freq=1000, density="binomial", outlier_prob=cfg["outlier_prob"])
+    except BaseException as e:
+        if isinstance(e, KeyboardInterrupt):
+            raise
+        exc = e
+    finally:
+        gzip.GzipFile.write = real_write
+    return counter[0], exc, out
+
+
+def _fault_case(cfg):
+    """crash inside the final trace write of a real multi-chain run: whatever is left at the output path must be
+    rejected by every summary command or give exactly the complete run's results"""
+    os.makedirs(SCRATCH, exist_ok=True)
+    with tempfile.TemporaryDirectory(dir=SCRATCH) as td:
+        d1, d2 = os.path.join(td, "full"), os.path.join(td, "fault")
+        os.makedirs(d1)
+        os.makedirs(d2)
+        total, exc, full = _run_with_write_fault(cfg, d1)
+        if exc is not None:
+            from vp.common import HarnessError
+
+            raise HarnessError("reference multi-chain run failed: %r" % (exc,))
+        o1 = os.path.join(d1, "out")
+        os.makedirs(o1)
+        ref = _run(full, o1)
+        written, exc, part = _run_with_write_fault(cfg, d2, fault_after=int(total * cfg["frac"]))
+        if exc is None:
+            return dict(ok=True, note="fault not reached (%d of %d bytes)" % (written, total))
+        if not os.path.exists(part):
+            return dict(ok=True, note="no file left at the output path")
+        o2 = os.path.join(d2, "out")
+        os.makedirs(o2)
+        got = _run(part, o2)
+        for name, r in got.items():
+            if r[0] == "ok" and ref[name][0] == "ok" and r[1] != ref[name][1]:
+                return dict(ok=False, command=name, size=os.path.getsize(part), full=os.path.getsize(full))
+        return dict(ok=True, note="partial file rejected or identical (%d bytes left, complete file %d)" % (os.path.getsize(part), os.path.getsize(full)))
+
+
 def extra(ctx, stats):
+    from vp.common import case_hash, derive_seed
+
+    n_fault = ctx.pick(1, 4)
+    for j in range(n_fault):
+        sd = derive_seed(ctx.seed, "c20fault", j)
+        rows = []
+        for m in range(4):
+            for smp in range(2):
+                alt = 10 + (sd >> (3 * m + smp)) % 60
+                rows.append(dict(mutation_id="m%d" % m, sample_id="s%d" % smp, ref_counts=100 - alt, alt_counts=alt, major_cn=1 + (m % 2), minor_cn=1, normal_cn=2))
+        cfg = dict(rows=rows, iters=6 + j, seed=sd % 100000, proposal=["semi-adapted", "fully-adapted", "bootstrap"][j % 3], outlier_prob=[0.0, 0.1][j % 2], frac=[0.9, 0.6, 0.97, 0.75][j % 4])
+        r = _fault_case(cfg)
+        stats.evaluations += 1
+        stats.count("kind:write-fault-in-real-multichain-run")
+        stats.nontrivial_keys.add(case_hash(cfg))
+        stats.notes.append("write fault case %d: %s" % (j, r.get("note") or r))
+        if not r["ok"]:
+            stats.violations.append(dict(component="partial-trace-accepted/after-write-fault/" + r["command"], message="a multi-chain run whose final trace write failed with ENOSPC left a file (%d bytes; complete trace %d) that %s summarises successfully with results different from the complete run's" % (r["size"], r["full"], r["command"]), tags=dict(command=r["command"], kind="write-fault"), case=dict(kind="write-fault", cfg=cfg), detail={}))
     stats.exhaustive = True
     stats.notes.append("exhaustive refers to the inner space: all byte prefixes of each generated trace x all 5 command variants; the set of traces is sampled")
